@@ -336,7 +336,7 @@ def c09():
 def c10():
     import gen
     files = gen.c10_files(os.path.join(GEN, 'C10'), CUR_TIER, CUR_SEED)
-    qs = [Q(name, path, 3, timeout=300, ncases=n) for name, path, n in files] + [Q('re_null_guard', 'C10/re.cpp', 6, defs={'VF_CLAIM': 10})]
+    qs = [Q(name, path, 3, timeout=900, ncases=n, portfolio=True) for name, path, n in files] + [Q('re_null_guard', 'C10/re.cpp', 6, defs={'VF_CLAIM': 10})]
     return dict(
         queries=qs,
         level='model_checking',
